@@ -57,21 +57,32 @@ def run_seeded(name, props=None, tier='quick'):
 
 
 def for_property(pid):
-    """mutation self-test of one property (thorough tier): own seed mutants + independently produced changes"""
-    res = []
+    """mutation self-test of one property (thorough tier): own seed mutants + a sample of the independently produced changes
+    (VT_SELFTEST_MAX of them, default 6, spread over the sorted names; the complete regression of all kept changes is
+    `python3-vt -m vt.seedtest detect <name>` / DESIGN section 10); three scratch copies at a time"""
+    import concurrent.futures as cf
+    jobs = []
     for m in M:
         if pid in m['props']:
-            r = run_mutant(m, props=[pid])
-            r['caught'] = r.get('results', {}).get(pid, {}).get('rc') == 1
-            res.append(r)
+            jobs.append(('m', m))
     sd = os.path.join(VERIF, 'seeded')
+    names = []
     for name in sorted(os.listdir(sd)) if os.path.isdir(sd) else []:
         mp = os.path.join(sd, name, 'meta.json')
         if os.path.exists(mp) and json.load(open(mp)).get('property') == pid:
-            r = run_seeded(name, [pid])
-            r['caught'] = r.get('results', {}).get(pid, {}).get('rc') == 1
-            res.append(r)
-    return res
+            names.append(name)
+    cap = int(os.environ.get('VT_SELFTEST_MAX', '6'))
+    if len(names) > cap > 0:
+        step = len(names) / cap
+        names = [names[int(k * step)] for k in range(cap)]
+    jobs += [('s', n) for n in names]
+    def one(job):
+        kind, x = job
+        r = run_mutant(x, props=[pid]) if kind == 'm' else run_seeded(x, [pid])
+        r['caught'] = r.get('results', {}).get(pid, {}).get('rc') == 1
+        return r
+    with cf.ThreadPoolExecutor(3) as ex:
+        return list(ex.map(one, jobs))
 
 
 def main():
